@@ -2,7 +2,7 @@
 # usage: tools_mut.sh <name> <check-id> <file> <python-regex-sub-old> <new>   (development aid: seeded-edit sensitivity test)
 set -e
 name=$1; prop=$2; file=$3; old=$4; new=$5
-wt=/tmp/wt_$name
+wt=/tmp/wt_$name; VD=${VERIFDIR:-/verif}
 git -C /repo worktree remove --force $wt 2>/dev/null || true
 git -C /repo worktree add -q --detach $wt HEAD
 python3 - "$wt/$file" "$old" "$new" <<'PY'
@@ -14,6 +14,6 @@ s=s.replace(old,new,1)
 open(p,'w').write(s)
 PY
 git -C $wt diff --stat | tail -1
-VERIF_REPO=$wt python3-vt /verif/run.py check $prop ${TIER:+--tier $TIER} ${ONLY:+--only $ONLY} | grep -v "^  " | head -${LINES_OUT:-8}
+VERIF_REPO=$wt python3-vt $VD/run.py check $prop ${TIER:+--tier $TIER} ${ONLY:+--only $ONLY} | grep -v "^  " | head -${LINES_OUT:-8}
 echo "exit=${PIPESTATUS[0]}"
 git -C /repo worktree remove --force $wt
